@@ -30,14 +30,13 @@ LEAN_TARGETS = ["NfcVerif.Props.C16", "drv_c16"]
 THEOREMS = [
     "NfcVerif.C16.transceive_bounded",
     "NfcVerif.C16.transceive_errno",
-    "NfcVerif.C16.isodep_bounded",
-    "NfcVerif.C16.isodep_errno",
     "NfcVerif.C16.op_outcome_documented_partial",
     "NfcVerif.C16.t3_outcome_documented",
+    "NfcVerif.C16.t3_format_documented",
+    "NfcVerif.C16.write_not_duplicated",
     "NfcVerif.C16.unknown_commerror_counterexample",
     "NfcVerif.C16.isodep_commerror_counterexample",
-    "NfcVerif.C16.write_not_duplicated",
-    "NfcVerif.C16.applied_once_per_delivery",
+    "NfcVerif.C16.lost_answer_write_twice",
 ]
 
 OPS = ["ndef", "write", "present", "format", "formatw", "protect", "protectpw", "auth", "dump"]
